@@ -16,6 +16,7 @@ Proof.
   destruct (negb (ix_valid_pos (q_start r)) || negb (ix_valid_pos (q_end r))); [discriminate|].
   destruct (q_placed r); simpl in H.
   2:{ inversion H; subst; simpl. split; reflexivity. }
+  destruct (q_rid r <? 0) eqn:E0; [discriminate|].
   destruct (q_rid r <? zlen (irefs ix) - 1) eqn:E1; [discriminate|]. apply Z.ltb_ge in E1.
   set (refs := if q_rid r >=? zlen (irefs ix) then ix_grow_refs (irefs ix) (q_rid r) else irefs ix) in *.
   assert (Hl : zlen refs = Z.max (zlen (irefs ix)) (q_rid r + 1)).
@@ -135,6 +136,7 @@ Proof.
   destruct (negb (ix_valid_pos (q_start r)) || negb (ix_valid_pos (q_end r))); [discriminate|].
   destruct (q_placed r) eqn:Hp; simpl in H.
   2:{ inversion H; subst; simpl. rewrite true_stats_snoc_other by (left; exact Hp). apply I; exact Hrid. }
+  destruct (q_rid r <? 0) eqn:E0; [discriminate|].
   destruct (q_rid r <? zlen (irefs ix) - 1) eqn:E1; [discriminate|].
   set (refs := if q_rid r >=? zlen (irefs ix) then ix_grow_refs (irefs ix) (q_rid r) else irefs ix) in *.
   assert (Hnth : forall i, nth i refs ix_empty_ref = nth i (irefs ix) ix_empty_ref).
